@@ -219,34 +219,80 @@ class _RealSessionProxy:
 # schedules (C05-C07): requests run as greenlets and can be pre-empted at
 # the begin of a top-level transaction
 
-class Scheduler(Hooks):
-    """A request can be pre-empted only where it opens a top-level
-    transaction while it holds no other open transaction (so at any time at
-    most one transaction is in flight: transactions are atomic and isolated,
-    the granularity the properties fix)."""
+CONTENDED = ('resource_providers', 'inventories', 'allocations', 'consumers',
+             'resource_provider_traits', 'resource_provider_aggregates',
+             'placement_aggregates')
 
-    def __init__(self):
+
+class Scheduler(Hooks):
+    """Requests run as greenlets.  A request can be pre-empted only when a
+    top-level transaction of it (opened while it holds no other open
+    transaction) is about to touch a contended table for the first time.
+    Until then the transaction has only read tables nobody in the scenario
+    writes, so yielding there is equivalent to yielding at its begin
+    (those reads commute with every other transaction); this is the
+    independence reduction of DESIGN 3.5.  At any time at most one
+    transaction that touched contended data is in flight: transactions are
+    atomic and isolated, the granularity the properties fix."""
+
+    def __init__(self, contended=CONTENDED):
         self.main = None
         self.points = 0
         self.trace = []
         self.open = {}          # greenlet -> number of open sessions
+        self.armed = {}         # session id -> may still yield
+        self.contended = set(contended)
+        self.log = {}           # request index -> list of events
+        self.index = {}         # greenlet -> request index
+        self.observe = None     # callback(session, event) for harnesses
 
-    def on_begin(self, session):
+    def _me(self):
         g = greenlet.getcurrent()
         if self.main is None or g is self.main:
+            return None
+        return g
+
+    def on_begin(self, session):
+        g = self._me()
+        if g is None:
             return
         n = self.open.get(g, 0)
         self.open[g] = n + 1
-        if n == 0:
-            self.points += 1
-            self.main.switch('begin')
+        self.armed[id(session)] = (n == 0)
 
     def on_end(self, session):
-        g = greenlet.getcurrent()
-        if self.main is None or g is self.main:
+        g = self._me()
+        if g is None:
             return
         if self.open.get(g, 0) > 0:
             self.open[g] -= 1
+        self.armed.pop(id(session), None)
+
+    def on_execute(self, session, stmt):
+        g = self._me()
+        if g is None:
+            return
+        if not self.armed.get(id(session)):
+            return
+        from engine.symdb import stmt_tables
+        if not (stmt_tables(stmt) & self.contended):
+            return
+        self.armed[id(session)] = False
+        self.points += 1
+        self.main.switch('txn')
+        # resumed: this transaction has done nothing but read uncontended
+        # tables so far; let it see the current committed state
+        if hasattr(session, 'view') and not session.dirty:
+            session.view = session.db.committed.copy()
+        if self.observe is not None:
+            self.observe(self.index.get(g), session, 'txn-start')
+
+    def on_commit(self, session):
+        g = self._me()
+        if g is None:
+            return
+        if self.observe is not None:
+            self.observe(self.index.get(g), session, 'commit')
 
     def run(self, thunks):
         """thunks: one callable per request.  Runs them under the
@@ -263,6 +309,8 @@ class Scheduler(Hooks):
                     errors[i] = e
             return body
         gls = [greenlet.greenlet(mk(i)) for i in range(len(thunks))]
+        for i, g in enumerate(gls):
+            self.index[g] = i
         alive = list(range(len(thunks)))
         try:
             while alive:
@@ -281,8 +329,8 @@ class Scheduler(Hooks):
         return results
 
 
-def install_scheduler(world):
-    s = Scheduler()
+def install_scheduler(world, contended=CONTENDED):
+    s = Scheduler(contended)
     if not world.concrete:
         world.db.hooks = s
 
@@ -290,6 +338,7 @@ def install_scheduler(world):
             world.db.hooks = None
         return s, un
     rl = _RealListeners(world.backend.engine)
+    current = {}
 
     def created(session, transaction):
         if transaction.parent is None and not transaction.nested:
@@ -298,6 +347,26 @@ def install_scheduler(world):
     def ended(session, transaction):
         if transaction.parent is None and not transaction.nested:
             s.on_end(session)
+
+    def after_begin(session, transaction, connection):
+        current[id(connection)] = session
+
+    def before_execute(conn, clauseelement, multiparams, params,
+                       execution_options):
+        sess = current.get(id(conn))
+        if sess is not None and isinstance(
+                clauseelement, (sa.sql.selectable.Select, sa.sql.dml.Insert,
+                                sa.sql.dml.Update, sa.sql.dml.Delete)):
+            if not isinstance(clauseelement, sa.sql.selectable.Select):
+                sess.info.setdefault('verif_writes', set()).add(
+                    clauseelement.table.name)
+            s.on_execute(sess, clauseelement)
+
+    def before_commit(session):
+        s.on_commit(session)
     rl.listen(Session, 'after_transaction_create', created)
     rl.listen(Session, 'after_transaction_end', ended)
+    rl.listen(Session, 'after_begin', after_begin)
+    rl.listen(Session, 'before_commit', before_commit)
+    rl.listen(world.backend.engine, 'before_execute', before_execute)
     return s, rl.remove
